@@ -440,7 +440,7 @@ def unknown_requests(rng, axis_ids, quick=True):
         must = [c for c in cands if c[0] in ("extend-digit", "extend-long")][:2]
         rest = [c for c in cands if c not in must]
         rng.shuffle(rest)
-        cands = must + rest[:4]
+        cands = must + rest[:3]
     reqs = []
     for kind, base, u in cands:
         others = [i for i in axis_ids if i != base]
